@@ -28,6 +28,18 @@ struct m_vec_Token *g_tv; /* the referenced token vector */
 long g_num_id, g_num_val;
 long nondet_long(void);
 /* T5: strtol on a digit string (see contracts/gen_misc.c) */
+unsigned long nondet_ulong(void);
+/* strtoul on the same string: the same mathematical value, saturated at ULONG_MAX instead of LONG_MAX */
+unsigned long g_num_uval;
+unsigned long strtoul(const char *s, char **end, int base)
+{
+  unsigned long r = nondet_ulong();
+  if ((long)s == g_num_id) {
+    __CPROVER_assume(g_num_uval <= 9223372036854775807ul ? g_num_val == (long)g_num_uval : g_num_val == 9223372036854775807l);
+    r = g_num_uval;
+  }
+  return r;
+}
 long strtol(const char *s, char **end, int base)
 {
   long r = nondet_long();
@@ -99,7 +111,7 @@ static void *setup(void)
   the_es.output._d = mk(ocap, sizeof(tok_t)); the_es.output._cap = ocap; the_es.output._n = nondet_ulong();
   the_es.tok_pos = nondet_uint();
   g_es = &the_es; g_tv = &the_tv;
-  g_num_id = nondet_long(); g_num_val = nondet_long();
+  g_num_id = nondet_long(); g_num_val = nondet_long(); g_num_uval = nondet_ulong();
   return &the_es;
 }
 #define CANARY __CPROVER_assert(0, "canary: end of harness reachable (requires satisfiable)")
